@@ -214,3 +214,34 @@ def finish(ctx, explanation, level_note=None):
           '%d functions, %.2fs [%s]' % (ctx.prop, nob, ndis, nviol, nknown, len(ctx.undecided),
                                         len(ctx.functions), time.time() - ctx.t0, ctx.tier))
     return code
+
+
+class Renamed(object):
+    """View of a Ctx under which a rule module borrowed from another property reports under this property's own rule ids."""
+    def __init__(self, ctx, mapping):
+        object.__setattr__(self, '_ctx', ctx)
+        object.__setattr__(self, '_map', mapping)
+
+    def _r(self, rid):
+        return self._map.get(rid, self._map.get('*', rid))
+
+    def __getattr__(self, k):
+        return getattr(self._ctx, k)
+
+    def __setattr__(self, k, v):
+        setattr(self._ctx, k, v)
+
+    def rule(self, rid, *a, **k):
+        return self._ctx.rule(self._r(rid), *a, **k)
+
+    def holds(self, rid, *a, **k):
+        return self._ctx.holds(self._r(rid), *a, **k)
+
+    def violated(self, rid, *a, **k):
+        return self._ctx.violated(self._r(rid), *a, **k)
+
+    def undecide(self, rid, *a, **k):
+        return self._ctx.undecide(self._r(rid), *a, **k)
+
+    def require(self, rid, *a, **k):
+        return self._ctx.require(self._r(rid), *a, **k)
